@@ -9,6 +9,10 @@ HOOK_COMMITS = subprocess.run(
 TECH = "deterministic simulation with fault injection: seeded search over schedules / completion orders / workloads under an owned scheduler (shuttle mechanism, own choice-stream policy), reference-model oracles over the recorded history"
 
 CLAIMED = {
+ "C01": ("exploration", "5.C01", "the real HybridCache (memory -> keeper -> block engine with flushers, reclaimers, recovery, tombstone log) over the simulated device, one sequential client plus foyer's background tasks; every interleaving of the client with eviction hand-off, flusher batching, device completion order, reclaim, and graceful restarts is a scheduler/io decision; every value is tagged (key, version), every lookup result is judged inline against the sequential reference model with the property's exclusions (overload sheds per key).",
+         "value oracle needs self-describing values (>= 20 bytes); empty values are not part of the workload; multi-client hybrid histories are not claimed"),
+ "C16": ("exploration", "5.C16", "listener, weighter, memory filter, storage filters and the destructors of keys and values first read the per-task count of held foyer locks (a direct, timing-free detector) and then re-enter the same single-shard cache; shuttle's non-reentrant locks turn a callback under a write lock into an immediate deadlock report; multi-client runs look for lock-order cycles.",
+         "locks counted are the ones foyer takes through the verif shims (all parking_lot/std locks of foyer-memory and foyer-storage); mea's async mutex in the tombstone log is not counted"),
  "C02": ("exploration", "5.C02", "seeded search over thread interleavings of 2-4 client threads (plus foyer's own fetch tasks and resize threads) against the real Cache for all five algorithms; per-key Wing-Gong linearizability search against an atomic register whose reads may miss; handles re-read at quiescence. Sampling, not proof.",
          "shuttle explores SeqCst only; histories <= 22 ops per key; capacity eviction modelled as 'reads may miss'"),
  "C05": ("exploration", "5.C05", "operation-by-operation reference-model check (single client, every step a quiescent point: usage/entries vs findable entries, eviction minimality and bound per insert from on_leave events, clear, resize, shard-capacity sum) plus multi-client runs checked at quiescence by an actual lookup sweep.",
@@ -28,7 +32,7 @@ CLAIMED = {
 NOT_APPLICABLE = {
  "C14": "pure function of the operation sequence for a single shard: no schedule, clock, I/O or fault enters it; deciding it needs five reference implementations plus input generation (model-based testing), not simulation. Its concurrent clauses are covered by C18 (LRU never evicts a held looked-up entry) and C05 (eviction minimality / capacity bound).",
 }
-PENDING = {'C01': 'check not built yet at this commit (work in progress; see DESIGN.md section 5)', 'C03': 'check not built yet at this commit (work in progress; see DESIGN.md section 5)', 'C04': 'check not built yet at this commit (work in progress; see DESIGN.md section 5)', 'C07': 'check not built yet at this commit (work in progress; see DESIGN.md section 5)', 'C08': 'check not built yet at this commit (work in progress; see DESIGN.md section 5)', 'C09': 'check not built yet at this commit (work in progress; see DESIGN.md section 5)', 'C10': 'check not built yet at this commit (work in progress; see DESIGN.md section 5)', 'C12': 'check not built yet at this commit (work in progress; see DESIGN.md section 5)', 'C15': 'check not built yet at this commit (work in progress; see DESIGN.md section 5)', 'C16': 'check not built yet at this commit (work in progress; see DESIGN.md section 5)'}
+PENDING = {k: 'check not built yet at this commit (work in progress; see DESIGN.md section 5)' for k in ['C03','C04','C07','C08','C09','C10','C12','C15']}
 
 def entry(pid, v):
     cat, ref, text, note = v
